@@ -241,8 +241,8 @@ var histPlans = map[string]*histPlan{
 		rule:     "one evaluation = one seeded history of point operations, imports with scaled coordinates and decodes (incl. non-canonical encodings); after every step every changed (30% of runs: every) initialised point slot is encoded and compared with the canonical encoding computed from its own raw coordinates, then decoded again; non-trivial = at least one slot encoding checked; distinct = distinct value-level event-log hash"},
 	"C09": {level: "exploration", quickRuns: 40000, thorRuns: 6000000, chunk: 1000, quickBudget: 45 * time.Second, thorBudget: 15 * time.Minute,
 		builds:   []string{"default", "purego"},
-		required: []string{"oracle/C09", "probe/C09/invert_zero"},
-		rule:     "one evaluation = one seeded history over 8-16 field.Element slots (all 20 Element operations; half of the runs biased to carry-free chains that maximise limbs), executed under the default (assembly) and the purego build; each of the nine C09 operations is compared with GF(p) arithmetic on the pre-state values, the 2^52 limb bound is checked on every written element; non-trivial = at least one of the nine operations checked; distinct = distinct value-level event-log hash"},
+		required: []string{"oracle/C09", "probe/C09/invert_zero", "probe/climb_runs"},
+		rule:     "one evaluation = one seeded history over 8-16 field.Element slots (all 20 Element operations; half of the runs biased to carry-free chains that maximise limbs; one run in 64 is an objective-guided search: a seeded hill-climb over histories that maximises the largest limb, the limb at one position, or the smallest limb of one operand, each candidate history executed under the same oracles, followed by a tail that feeds the largest representations found to all nine operations in every operand position), executed under the default (assembly) and the purego build; each of the nine C09 operations is compared with GF(p) arithmetic on the pre-state values, the 2^52 limb bound is checked on every written element; non-trivial = at least one of the nine operations checked; distinct = distinct value-level event-log hash"},
 	"C11": {level: "fault_enumeration", quickRuns: 2400, thorRuns: 250000, chunk: 5, quickBudget: 60 * time.Second, thorBudget: 20 * time.Minute,
 		builds: []string{"default", "purego"}, // the portable multiplication/squaring have their own read/write order
 		required: []string{"oracle/C11diff", "oracle/C11diff/Scalar.MultiplyAdd", "oracle/C11diff/Point.MultiScalarMult", "oracle/C11diff/Point.VarTimeMultiScalarMult",
